@@ -20,6 +20,7 @@ PACKAGES = {"1P": "[1] U [2]", "2P": "[3]", "3P": "[1][901]", "4P": "[501]", "9P
 # package definitions vary from one content evaluation result to the next (same key, other expression)
 PACKAGE_CHOICES = {"1P": ["[1] U [2]", "[2]", "[1] O [4]"], "2P": ["[3]", "[4]", "[1] X [3]"], "3P": ["[1][901]", "[2][902]"], "4P": ["[501]", "[502]"], "9P": [None]}
 CURRENT_PACKAGES = dict(PACKAGES)
+EMPTY_HINT = [0.0]   # probability that a hint of a generated content evaluation result has the empty text (set by the checks that want it)
 
 
 # ------------------------------------------------------------------ AHB expressions
@@ -56,7 +57,7 @@ def ahb_expr(rng, kind="any"):
 def random_cer(rng, unknown=0.1, missing=0.0):
     st = ["FULFILLED", "UNFULFILLED", "UNKNOWN"]
     rc = {k: rng.choices(st, [5, 4, 10 * unknown])[0] for k in RC + ["492", "493"] if rng.random() >= missing}
-    hints = {k: "H" + k for k in HINTS}
+    hints = {k: ("" if rng.random() < EMPTY_HINT[0] else "H" + k) for k in HINTS}   # a hint text may be any string, the empty one included
     fc = {}
     for k in FCS + ["932", "934"]:
         ok = rng.random() < 0.6
@@ -374,6 +375,33 @@ def validation_cases(ctx, n_trees, kind="any", unknown=0.05, flags=(True, False)
                     ctx.dist("validation.status", r_.validation_result.requirement_validation.name)
             out.append({"cer": (rc, h, fc), "packages": dict(CURRENT_PACKAGES), "lines": lines, "soll": soll, "res": res, "cache": cache,
                         "term": f"({gcer(rc, h, fc)}, {lt}, {gbool(soll)}, {val_obs(res, inv)})"})
+    return out
+
+
+def small_scope_cases(ctx, group_exprs, seg_exprs, de_exprs, states=("FULFILLED", "UNFULFILLED", "UNKNOWN"), inputs=("abc",), flags=(True, False)):
+    """every tree  group > segment > free-text element  over the given expression strings (keys [1] for the element, [2] for the segment, [3] for the
+    group) x every assignment of the states to the keys that occur x both flags: a small scope enumerated completely"""
+    import itertools
+
+    out = []
+    for g, sg, de, inp in itertools.product(group_exprs, seg_exprs, de_exprs, inputs):
+        keys = [k for k, x in (("1", de), ("2", sg), ("3", g)) if f"[{k}]" in x]
+        for vals in itertools.product(states, repeat=len(keys)):
+            rc = {k: "FULFILLED" for k in RC + ["492", "493"]}
+            rc.update(dict(zip(keys, vals)))
+            h = {k: "H" + k for k in HINTS}
+            fc = {k: (True, None) for k in FCS + ["932", "934"]}
+            CURRENT_PACKAGES.clear()
+            evalimpl.set_cer(rc=rc, hints=h, fc=fc, packages={})
+            cache = ExprCache()
+            lines = [("G", "sg1", g, [("S", "seg1", sg, [("F", "de1", de, inp, None)])])]
+            lt = "[" + "; ".join(node_term(n, cache) for n in lines) + "]"
+            inv = {m for m in cache.inv.values() if m}
+            for soll in flags:
+                res = run_validation(lines, soll)
+                ctx.dist("small_scope.outcome", "rows" if res[0] == "ok" else str(res[1]))
+                out.append({"cer": (rc, h, fc), "packages": {}, "lines": lines, "soll": soll, "res": res, "cache": cache,
+                            "term": f"({gcer(rc, h, fc)}, {lt}, {gbool(soll)}, {val_obs(res, inv)})"})
     return out
 
 
